@@ -7,11 +7,13 @@
    sorted by key: Go's map iteration order is visible only in the order of the storage writes of
    savePatch, which the driver records and passes to the model (`worder`).
    Each rule carries the group object it currently points to (`r_group`): patch.adjust() rewrites
-   that pointer on the *served* rules before the patch is validated (DESIGN.md section 7, S5).
+   that pointer on the *served* rules before the patch is validated (DESIGN.md section 7, S5); since
+   the fix 4fc9a45 both error paths of tryCommitPatch re-adjust the served configuration, and since
+   4f573f0 buildRuleList rejects a first split point that is not the empty key.
    Rule content other than the modelled fields (label constraints, location labels, isolation level)
    is one number `r_ver`; the driver gives every generated rule object its own number. *)
 From Coq Require Import String.
-From PDV Require Import lib.Base lib.C12_Order gen.Gen_C13.
+From PDV Require Import lib.Base lib.C12_Order lib.C13_Map gen.Gen_C13.
 Local Open Scope list_scope.
 Local Open Scope Z_scope.
 
@@ -33,29 +35,10 @@ Definition id := key.
 Definition pair_cmp (a b : id * id) : comparison := lexc (key_cmp (fst a) (fst b)) (key_cmp (snd a) (snd b)).
 Definition pair_eqb (a b : id * id) : bool := match pair_cmp a b with Eq => true | _ => false end.
 
-(* ---------- sorted association lists ---------- *)
-Section AMap.
-  Context {K V : Type} (cmp : K -> K -> comparison).
-  Fixpoint mget (k : K) (m : list (K * V)) : option V :=
-    match m with
-    | [] => None
-    | (k', v) :: r => match cmp k k' with Eq => Some v | _ => mget k r end
-    end.
-  Fixpoint mset (k : K) (v : V) (m : list (K * V)) : list (K * V) :=
-    match m with
-    | [] => [(k, v)]
-    | (k', v') :: r => match cmp k k' with
-                       | Lt => (k, v) :: m
-                       | Eq => (k, v) :: r
-                       | Gt => (k', v') :: mset k v r
-                       end
-    end.
-  Fixpoint mdel (k : K) (m : list (K * V)) : list (K * V) :=
-    match m with
-    | [] => []
-    | (k', v') :: r => match cmp k k' with Eq => r | _ => (k', v') :: mdel k r end
-    end.
-End AMap.
+(* ---------- sorted association lists: lib/C13_Map.v (aget / aset / adel) ---------- *)
+Notation mget := aget.
+Notation mset := aset.
+Notation mdel := adel.
 
 (* ---------- rules and groups ---------- *)
 Inductive role := Voter | Leader | Follower | Learner | BadRole.
@@ -195,7 +178,13 @@ Fixpoint sweep (pts : list point) (sr : list rule) : berr + list range :=
 Definition build_rule_list (rules : list rule) : berr + list range :=
   match points_of rules with
   | [] => inl ENoRuleLeft
-  | pts => sweep (sort_points pts) []
+  | pts =>
+      let sp := sort_points pts in
+      match sp with
+      | p :: _ => if is_nil (p_key p) then sweep sp []
+                  else inl ENoRuleForRange          (* keys before the first start key would have no rule *)
+      | [] => inl ENoRuleLeft
+      end
   end.
 
 (* sort.Search(len(ranges), startKey > k): ranges are strictly ascending (proof/C13), so the first
@@ -399,11 +388,11 @@ Definition try_commit (m : manager) (s : storage) (p : patch) (order : list wref
   : manager * storage * (option err) * bool (* recorded write order admissible *) :=
   let '(c1, p1) := patch_adjust (m_conf m) p in
   match build_rule_list (patch_view c1 p1) with
-  | inl e => (Manager c1 (m_list m), s, Some (berr_to_err e), is_nil order)
+  | inl e => (Manager (config_adjust c1) (m_list m), s, Some (berr_to_err e), is_nil order)   (* m.ruleConfig.adjust() *)
   | inr rl =>
       let p2 := patch_trim c1 p1 in
       let '(s', failed, ok) := save_patch p2 order f s in
-      if failed then (Manager c1 (m_list m), s', Some EStorage, ok)
+      if failed then (Manager (config_adjust c1) (m_list m), s', Some EStorage, ok)       (* m.ruleConfig.adjust() *)
       else (Manager (patch_commit c1 p2) rl, s', None, ok)
   end.
 
